@@ -302,11 +302,14 @@ def enumerate_mode(ctx, mode):
     kernel = _kernel()
     # compile each signature before forking
     t = np.zeros((2, 2))
-    for b in (1.0, 1, np.float64(1.0), np.zeros(2)):
-        kernel(t, b)
-        kernel(np.asfortranarray(t), b)
-    for dt in (np.int64, np.float32, np.int32):
-        kernel(t.astype(dt), 0.5)
+    try:
+        for b in (1.0, 1, np.float64(1.0), np.zeros(2)):
+            kernel(t, b)
+            kernel(np.asfortranarray(t), b)
+        for dt in (np.int64, np.float32, np.int32):
+            kernel(t.astype(dt), 0.5)
+    except Exception:
+        pass        # warm-up only: a signature that cannot be compiled is reported by judge() below
     units = [u + (ctx.tier, mode) for u in plan(ctx.tier, mode)]
     res = ctx.pmap(work, units)
     res += ctx.pmap(work_long, [u + (ctx.tier, mode) for u in long_plan(ctx.tier)])
